@@ -67,6 +67,14 @@ type loginPlan struct {
 	// with the same script) and then once more against a server that answers with the valid script: that control
 	// login must succeed - what failed or odd logins leave behind in the process may not break a later one.
 	Storm int `json:"storm,omitempty"`
+	// Prime (C08): before the login under test a login against a server answering with the valid script is made on
+	// its own connection (user name prefix "prime_"); it must succeed, and its connection's capabilities must still
+	// be the ones ITS server returned after the other logins of the run.
+	Prime bool `json:"prime,omitempty"`
+	// ReusePlain (C09): the login configuration object is first used for a login WITHOUT password encryption on
+	// another connection (first connection of the run, valid plain script), then switched back to encryption and
+	// used for the login under test: nothing of the first use may leak into the second.
+	ReusePlain bool `json:"reuse_plain,omitempty"`
 }
 
 const (
@@ -208,10 +216,12 @@ func loginEdits(encrypted bool) []loginEdit {
 					c := c
 					set(fmt.Sprintf("cipher %d", c), "MUST-FAIL", func(x *lPkg) { x.Cipher = c })
 				}
-				for _, k := range []string{"empty", "garbage", "trailing", "pkix", "small", "whitespace", "notpem"} {
+				for _, k := range []string{"empty", "garbage", "trailing", "small", "whitespace", "notpem", "ecdsa", "ecdsa-rsalabel", "ed25519", "ed25519-rsalabel"} {
 					k := k
 					set("key "+k, "MUST-FAIL", func(x *lPkg) { x.Key = k })
 				}
+				// the same RSA key in PKIX form: the statement does not say whether that is usable
+				set("key pkix", "EITHER", func(x *lPkg) { x.Key = "pkix" })
 			case "cap":
 				set("all masks zero", "MUST-FAIL", func(x *lPkg) { x.Zero = "all" })
 				set("request mask zero", "EITHER", func(x *lPkg) { x.Zero = "req" })
@@ -352,6 +362,9 @@ func (pk lPkg) encode(p *loginPlan) []byte {
 			}
 		case "small":
 			key = []byte(rsaKeys[512].PubPKCS1)
+		case "ecdsa", "ecdsa-rsalabel", "ed25519", "ed25519-rsalabel":
+			// a well-formed public key of another algorithm
+			key = []byte(nonRSAKeys[pk.Key])
 		case "whitespace":
 			key = []byte("\n \n")
 		case "notpem":
@@ -402,6 +415,25 @@ func (pk lPkg) encode(p *loginPlan) []byte {
 }
 
 // capMasks is what the scripted server grants.
+// capsDiffOf compares a connection's capabilities with the masks the valid script's server returns.
+func capsDiffOf(conn *tds.Conn) string {
+	diff := ""
+	req, resp := capMasks()
+	for n := 0; n < len(req)*8; n++ {
+		want := req[len(req)-1-n/8]&(1<<uint(n%8)) != 0
+		if conn.Caps.HasCapability(tds.CapabilityRequest, n) != want {
+			diff = fmt.Sprintf("request capability %d: connection has %v, server returned %v", n, !want, want)
+		}
+	}
+	for n := 0; n < len(resp)*8; n++ {
+		want := resp[len(resp)-1-n/8]&(1<<uint(n%8)) != 0
+		if conn.Caps.HasCapability(tds.CapabilityResponse, n) != want {
+			diff = fmt.Sprintf("response capability %d: connection has %v, server returned %v", n, !want, want)
+		}
+	}
+	return diff
+}
+
 func capMasks() (req, resp []byte) {
 	req = peer.CapMask(14, 1, 3, 5, 6, 12, 13, 18, 24, 39, 62, 73, 101)
 	resp = peer.CapMask(7, 1, 2, 9, 35, 40)
@@ -424,6 +456,11 @@ type loginObs struct {
 	cfgErr     string
 	twin       *loginObs
 	control    *loginObs
+	prime      *loginObs
+	conn       *tds.Conn
+	capsLater  string
+	plainErr   error
+	plainSent  []ClientMsg
 }
 
 func runLogin(p *loginPlan, schedSeed uint64, replay []simrt.Choice, lenient, keepLog bool) (*loginObs, *simrt.Outcome, *TDSPeer) {
@@ -459,10 +496,18 @@ func runLogin(p *loginPlan, schedSeed uint64, replay []simrt.Choice, lenient, ke
 			case len(m.Body) > 0 && m.Body[0] == 0x71: // logout
 				pr.SendPackets(peer.Packetise(peer.Done(0, 0, 0), nil, peer.BufResponse, 0, true))
 			case m.Index == 0:
-				if f, _, err := parseLoginRecord(m.Body); p.TwinAltKey && err == nil && strings.HasPrefix(string(f["lusername"].value), "twin_") {
-					q := *p
-					q.altKey = true
-					p = &q
+				if f, _, err := parseLoginRecord(m.Body); err == nil {
+					switch user := string(f["lusername"].value); {
+					case p.TwinAltKey && strings.HasPrefix(user, "twin_"):
+						q := *p
+						q.altKey = true
+						p = &q
+					case strings.HasPrefix(user, "prime_"), strings.HasPrefix(user, "ctl_"):
+						q := *p
+						q.Phase1, q.Phase2 = loginBase(p.Encrypted)
+						q.Trunc1, q.Trunc2, q.Cuts1, q.Cuts2 = -1, -1, nil, nil
+						p = &q
+					}
 				}
 				reply(p.Phase1, p.Trunc1, p.Cuts1)
 			case m.Index == 1 && p.Encrypted:
@@ -470,23 +515,23 @@ func runLogin(p *loginPlan, schedSeed uint64, replay []simrt.Choice, lenient, ke
 			}
 		}
 	}
-	wire(pr, p)
-	nsub := 0
+	if p.ReusePlain {
+		q := *p
+		q.Encrypted = false
+		q.Phase1, q.Phase2 = loginBase(false)
+		q.Trunc1, q.Trunc2, q.Cuts1, q.Cuts2 = -1, -1, nil, nil
+		wire(pr, &q)
+	} else {
+		wire(pr, p)
+	}
 	pr.NewSub = func(c *simrt.Conn) *TDSPeer {
 		sp := SubPeer(s, c)
-		nsub++
-		if p.Storm > 0 && nsub == p.Storm {
-			q := *p
-			q.Phase1, q.Phase2 = loginBase(p.Encrypted)
-			q.Trunc1, q.Trunc2, q.Cuts1, q.Cuts2 = -1, -1, nil, nil
-			wire(sp, &q)
-		} else {
-			wire(sp, p)
-		}
+		wire(sp, p)
 		return sp
 	}
 	s.Net.Setup = func(c *simrt.Conn) { c.ReadSizes = p.ReadSizes }
 	obs := &loginObs{}
+	mainObs := obs
 	twin := &loginObs{}
 	client := func(obs *loginObs, user, password string, remotePw []string) {
 		info := MkInfo(100, 5, false)
@@ -515,25 +560,33 @@ func runLogin(p *loginPlan, schedSeed uint64, replay []simrt.Choice, lenient, ke
 		for i := range p.RemoteN {
 			lc.RemoteServers = append(lc.RemoteServers, tds.LoginConfigRemoteServer{Name: p.RemoteN[i], Password: string(unhex(remotePw[i]))})
 		}
+		if p.ReusePlain && obs == mainObs {
+			// this first connection is used for the plain login with the same configuration object
+			enc := lc.Encrypt
+			lc.Encrypt = 0
+			pctx, pcancel := simrt.WithTimeout(context.Background(), 30*time.Second)
+			obs.plainErr = ch.Login(pctx, lc)
+			pcancel()
+			lc.Encrypt = enc
+			conn2, err := tds.NewConn(context.Background(), info)
+			if err != nil {
+				obs.setupErr = err.Error()
+				return
+			}
+			if ch, err = conn2.NewChannel(); err != nil {
+				obs.setupErr = err.Error()
+				return
+			}
+			conn = conn2
+		}
 		ctx, cancel := simrt.WithTimeout(context.Background(), 30*time.Second)
 		defer cancel()
 		obs.deadline = simrt.SimNow() + 30*time.Second
 		obs.loginErr = ch.Login(ctx, lc)
 		obs.returnedAt = simrt.SimNow()
+		obs.conn = conn
 		if obs.loginErr == nil {
-			req, resp := capMasks()
-			for n := 0; n < len(req)*8; n++ {
-				want := req[len(req)-1-n/8]&(1<<uint(n%8)) != 0
-				if conn.Caps.HasCapability(tds.CapabilityRequest, n) != want {
-					obs.capsDiff = fmt.Sprintf("request capability %d: connection has %v, server returned %v", n, !want, want)
-				}
-			}
-			for n := 0; n < len(resp)*8; n++ {
-				want := resp[len(resp)-1-n/8]&(1<<uint(n%8)) != 0
-				if conn.Caps.HasCapability(tds.CapabilityResponse, n) != want {
-					obs.capsDiff = fmt.Sprintf("response capability %d: connection has %v, server returned %v", n, !want, want)
-				}
-			}
+			obs.capsDiff = capsDiffOf(conn)
 		}
 		obs.packetSize = conn.PacketSize()
 		// the channel can still be closed afterwards
@@ -547,6 +600,11 @@ func runLogin(p *loginPlan, schedSeed uint64, replay []simrt.Choice, lenient, ke
 		if p.Twin {
 			tw = simrt.Spawn("twin", func() { client(twin, twinUser(p.User), string(unhex(p.TwinPassword)), p.TwinRemotePw) })
 		}
+		if p.Prime {
+			obs.prime = &loginObs{}
+			simrt.Record("prime-login", "", "", 0)
+			client(obs.prime, "prime_"+twinUser(p.User)[5:], string(unhex(p.Password)), p.RemotePw)
+		}
 		client(obs, p.User, string(unhex(p.Password)), p.RemotePw)
 		for k := 1; k < p.Storm; k++ {
 			client(&loginObs{}, p.User, string(unhex(p.Password)), p.RemotePw)
@@ -554,7 +612,10 @@ func runLogin(p *loginPlan, schedSeed uint64, replay []simrt.Choice, lenient, ke
 		if p.Storm > 0 {
 			obs.control = &loginObs{}
 			simrt.Record("control-login", "", "", 0)
-			client(obs.control, p.User, string(unhex(p.Password)), p.RemotePw)
+			client(obs.control, "ctl_"+twinUser(p.User)[5:], string(unhex(p.Password)), p.RemotePw)
+		}
+		if obs.prime != nil && obs.prime.loginErr == nil && obs.prime.conn != nil && p.Encrypted {
+			obs.prime.capsLater = capsDiffOf(obs.prime.conn)
 		}
 		if tw != nil {
 			simrt.Join(tw)
@@ -568,6 +629,10 @@ func runLogin(p *loginPlan, schedSeed uint64, replay []simrt.Choice, lenient, ke
 	}
 	for _, q := range peers {
 		owner := obs
+		if p.ReusePlain && q == pr {
+			obs.plainSent = q.Msgs
+			continue
+		}
 		if len(q.Msgs) > 0 {
 			if f, _, err := parseLoginRecord(q.Msgs[0].Body); err == nil && strings.HasPrefix(string(f["lusername"].value), "twin_") {
 				owner = twin
@@ -602,7 +667,7 @@ func (c08) NRuns(tier string) int {
 	return c08EditCount()*6 + 2000
 }
 func (c08) Rule() string {
-	return "login scripts derived from the valid plain and encrypted reply scripts: EVERY single edit (delete / duplicate / swap-adjacent each package; each field set to each alternative: ack status, message id, parameter count and types, cipher, key empty/garbage/trailing/PKIX/too small, capability masks zero, DONE status bits; reply stops after each package; no reply at all), each classified by construction as MUST-SUCCEED / MUST-FAIL / EITHER, x packetisations x key sizes 1024/1536/2048 x nonce lengths x 0..3 remote servers (quick: 6 variants per edit, thorough: 300), one variant of every edit (and 12% of the others) repeats the login 5..8 times and then make a control login against the valid script (must succeed); plus seeded scripts with benign decorations (invisible ENVCHANGE/EED-info packages) and 2..4 edits; non-trivial = an edit or decoration was applied; distinct = distinct (flow, edit, key size, remote count)"
+	return "login scripts derived from the valid plain and encrypted reply scripts: EVERY single edit (delete / duplicate / swap-adjacent each package; each field set to each alternative: ack status, message id, parameter count and types, cipher, key empty/garbage/trailing/PKIX/too small/white space/not PEM/ECDSA and Ed25519 keys, capability masks zero, DONE status bits; reply stops after each package; no reply at all), each classified by construction as MUST-SUCCEED / MUST-FAIL / EITHER, x packetisations x key sizes 1024/1536/2048 x nonce lengths x 0..3 remote servers (quick: 6 variants per edit, thorough: 300), one variant of every edit (and 10% of the others) is preceded by a valid login on its own connection, which must succeed and keep its capabilities; one variant of every edit (and 12% of the others) repeats the login 5..8 times and then make a control login against the valid script (must succeed); plus seeded scripts with benign decorations (invisible ENVCHANGE/EED-info packages) and 2..4 edits; non-trivial = an edit or decoration was applied; distinct = distinct (flow, edit, key size, remote count)"
 }
 func (c08) Components() map[string]string {
 	return map[string]string{"tds (Channel.Login, LoginConfig, rsaEncrypt, capability negotiation, NextPackageUntil)": "real (rewritten)", "crypto/rand": "stub: simrt seeded stream", "server": "stub: two-phase scripted login peer", "clock/contexts": "simulated (30 s login deadline costs no wall time)"}
@@ -642,6 +707,9 @@ func (c08) Gen(r *Rand, idx int, tier string) interface{} {
 		}
 		if idx%variants == 1 || r.Pct(12) {
 			p.Storm = 5 + r.Intn(4)
+		}
+		if idx%variants == 2 || r.Pct(10) {
+			p.Prime = true
 		}
 		return p
 	}
@@ -699,6 +767,9 @@ func (c08) Shrink(plan interface{}) []interface{} {
 	}
 	if p.Storm > 1 {
 		mod(func(q *loginPlan) { q.Storm-- })
+	}
+	if p.Prime {
+		mod(func(q *loginPlan) { q.Prime = false })
 	}
 	return out
 }
@@ -765,6 +836,18 @@ func (c08) Run(plan interface{}, schedSeed uint64, replay []simrt.Choice, lenien
 		}
 		if !obs.closeOK {
 			v.Violate("close", "channel cannot be closed after login", "%s: Close did not return", where)
+		}
+		if c := obs.prime; c != nil {
+			v.Probe("primed-with-valid-login")
+			if c.setupErr != "" || c.cfgErr != "" {
+				v.Machinery = "prime login: setup failed: " + c.setupErr + c.cfgErr
+			} else if c.loginErr != nil || c.returnedAt > c.deadline {
+				v.Violate("control-login", "valid login before the login under test failed", "%s: the login against a server answering with the valid script returned %v", where, c.loginErr)
+			} else if c.capsDiff != "" && p.Encrypted {
+				v.Violate("caps", "capabilities after login differ from the server's", "%s: (first, valid login) %s", where, c.capsDiff)
+			} else if c.capsLater != "" {
+				v.Violate("caps", "capabilities of an earlier connection changed by a later login", "%s: the connection of the earlier valid login now has: %s", where, c.capsLater)
+			}
 		}
 		if c := obs.control; c != nil {
 			v.Probe("storm-then-control-login")
@@ -908,6 +991,10 @@ func (c09) Gen(r *Rand, idx int, tier string) interface{} {
 		for i := 0; i < p.Remote; i++ {
 			p.TwinRemotePw = append(p.TwinRemotePw, hexOf(marker(pwLen())))
 		}
+	}
+	if encrypted && !p.Twin && r.Pct(12) {
+		p.ReusePlain = true
+		p.Edit += " + configuration used for a plain login first"
 	}
 	// secrets that do not fit into one RSA block: the encryption fails and the error path must not leak either
 	if encrypted && r.Pct(12) {
@@ -1344,6 +1431,12 @@ func (c09) Run(plan interface{}, schedSeed uint64, replay []simrt.Choice, lenien
 			// remote servers: the first pair is ("", account password), then the configured ones
 			rn := append([]string{""}, p.RemoteN...)
 			rp := append([][]byte{pw}, secrets[1:]...)
+			if p.ReusePlain {
+				// Login prepends the ("", account password) pair to the configuration's list every time it is used:
+				// a configuration used twice carries the pair twice. Both copies are judged like any other secret.
+				rn = append([]string{""}, rn...)
+				rp = append([][]byte{pw}, rp...)
+			}
 			if len(groups) >= 2 && len(groups[1].vals) != 2*len(rn) {
 				v.Violate("wrong-credentials", "remote password message has wrong pair count", "%s: %d values for %d servers", where, len(groups[1].vals), len(rn))
 				return
